@@ -9,7 +9,7 @@ from mc.core import Acc, Hang, horizon
 from mc.props.c16 import CLASS_UNIT, cls
 
 ID = "C14"
-RULE = ("E-INPUT: linear half = the C13 end-point grid x m in {default,1,2,3,5,7,10,20,50,100} through LinearScale.nice(m); "
+RULE = ("E-INPUT: linear half = the C13 end-point grid x m in {default,1,2,3,5,7,10,20,50,100} through LinearScale.nice(m), every fourth pair also as a three-entry piecewise domain [a, a+0.375(b-a), b]; "
         "time half = start instants (month ends, week/year boundaries of a leap and a non-leap year x 3 times of day, early "
         "instants, a seeded instant) x spans 10 ms..200 y x both orientations x counts {default,2,5,10,20,50} through "
         "TimeScale.nice(m). Oracle: orientation kept, no end inward, outward move < 2 tick steps (step measured through the "
@@ -17,7 +17,7 @@ RULE = ("E-INPUT: linear half = the C13 end-point grid x m in {default,1,2,3,5,7
         "Non-trivial: an end point actually moved.")
 ASSUMPTIONS = ["linear roundness tolerance 1e-6 of the step; time ends judged to 1 ms when the ticks are sub-second",
                "TZ=UTC here; zone independence is C18"]
-REQUIRED_COUNTERS = ("linear_cases", "time_cases", "linear_moved", "time_moved", "time_reversed")
+REQUIRED_COUNTERS = ("linear_cases", "linear_piecewise_cases", "time_cases", "linear_moved", "time_moved", "time_reversed")
 EPS = 2.220446049250313e-16
 LIN_MS = [None, 1, 2, 3, 5, 7, 10, 20, 50, 100]
 TIME_MS = [None, 2, 5, 10, 20, 50]
@@ -31,19 +31,27 @@ def bounds(tier, seed):
 
 
 # ------------------------------------------------------------------ linear
-def judge_linear(a, b, m, acc=None):
+def judge_linear(a, b, m, acc=None, mid=None):
+    """mid: an interior break point (a piecewise-linear domain [a, mid, b]); the domain's ends are still a and b."""
     from labella.scale import LinearScale
     try:
         with horizon(10.0):
-            s = LinearScale().domain([a, b])
+            s = LinearScale().domain([a, b]) if mid is None else LinearScale().domain([a, mid, b]).range([0, 1, 2])
             s.nice(m) if m is not None else s.nice()
-            na, nb = [float(v) for v in s.domain()]
+            nd = [float(v) for v in s.domain()]
+            na, nb = nd[0], nd[-1]
             tk = [float(t) for t in itertools.islice(LinearScale().domain([na, nb]).ticks(m), 10001)]
     except Hang:
         return "HANG", "nice(%r) on [%r, %r] did not return" % (m, a, b)
     except Exception as e:
         return "EXC:" + type(e).__name__, "nice(%r) on [%r, %r] raised %r" % (m, a, b, e)
     where = "nice(%r) on [%r, %r] -> [%r, %r]" % (m, a, b, na, nb)
+    if mid is not None:
+        where = "nice(%r) on [%r, %r, %r] -> %r" % (m, a, mid, b, nd)
+        if len(nd) != 3:
+            return "C14:lin-break-points", where
+        if acc is not None:
+            acc.counters["linear_piecewise_cases"] += 1
     if acc is not None:
         acc.counters["linear_cases"] += 1
         if (na, nb) != (a, b):
@@ -167,6 +175,14 @@ def run_shard(shard):
                 acc.trans += 1
                 if bad:
                     acc.violation({"kind": "lin", "a": a, "b": b, "m": m}, bad[0], bad[1], order=(0, i, m or 0))
+                if (i // shard["mod"]) % 4 == 0:  # every fourth pair also as a piecewise-linear domain with one interior break point
+                    mid = a + (b - a) * 0.375
+                    if mid != a and mid != b:
+                        bad = judge_linear(a, b, m, acc, mid)
+                        acc.evals += 1
+                        acc.trans += 1
+                        if bad:
+                            acc.violation({"kind": "lin", "a": a, "b": b, "m": m, "mid": mid}, bad[0], bad[1], order=(0, i, m or 0, 1))
         acc.sample({"kind": "lin", "a": a, "b": b, "m": 5})
         return acc
     for si, st in enumerate(time_starts(shard["starts"], shard["seed"])):
@@ -191,7 +207,7 @@ def run_shard(shard):
 
 def replay(case):
     if case["kind"] == "lin":
-        return judge_linear(case["a"], case["b"], case["m"])
+        return judge_linear(case["a"], case["b"], case["m"], None, case.get("mid"))
     return judge_time(case["start"], case["span_ms"], case["m"], case["rev"])
 
 
